@@ -49,6 +49,9 @@ void rmact (int k) { remove_action ("act", "verb" + k); }
 
 // input_to callback with two carry-over arguments (the harness sets command_giver to the interactive user)
 void icb (string str, mixed a, mixed b) { }
+// icb2 installs a new input_to from inside the callback (the driver has freed the old sentence before the call)
+void icb2 (string str, mixed a, mixed b) { input_to ("icb", 0, b, a); }
+void doinput2 (mixed a, mixed b) { input_to ("icb2", 0, a, b); }
 void doinput (mixed a, mixed b, int gc) { if (gc) get_char ("icb", 0, a, b); else input_to ("icb", 0, a, b); }
 
 // remove_call_out by function name / all call_outs of this object
